@@ -3,6 +3,8 @@ package main
 // symx word helpers: 256-bit reference semantics as single bit-vector operations.
 
 import (
+	"math/big"
+
 	"golang.org/x/tools/go/ssa"
 )
 
@@ -86,6 +88,65 @@ func init() {
 	reg(symxPath+".WEqual", func(in *Interp, fr *frame, args []Value, _ *ssa.CallCommon) Value {
 		return in.tt.Eq(in.wordTerm(args[0]), in.wordTerm(args[1]))
 	})
+
+	// holiman/uint256 heavy kernels (module dependency, not repository code) are replaced by
+	// their exact 256-bit semantics so that the opcode glue in /repo is checked at full width.
+	u256 := func(in *Interp, v Value) *Term {
+		p := v.(*Ptr)
+		if IsNilPtr(p) {
+			in.goPanic("runtime error: invalid memory address or nil pointer dereference (nil *uint256.Int)")
+		}
+		a := walk(p.obj.v, p.path).(*Array)
+		r := a.E[3].(*Term)
+		for i := 2; i >= 0; i-- {
+			r = in.tt.Concat(r, a.E[i].(*Term))
+		}
+		return r
+	}
+	setU256 := func(in *Interp, v Value, t *Term) Value {
+		p := v.(*Ptr)
+		a := &Array{E: make([]Value, 4)}
+		for i := 0; i < 4; i++ {
+			a.E[i] = in.tt.Extract(64*i+63, 64*i, t)
+		}
+		in.store(p, a)
+		return p
+	}
+	u := func(n string, f func(in *Interp, a []*Term) *Term) {
+		reg("(*github.com/holiman/uint256.Int)."+n, func(in *Interp, fr *frame, args []Value, _ *ssa.CallCommon) Value {
+			ts := make([]*Term, len(args)-1)
+			for i := range ts {
+				ts[i] = u256(in, args[i+1])
+			}
+			return setU256(in, args[0], f(in, ts))
+		})
+	}
+	u("Mul", func(in *Interp, a []*Term) *Term { return in.tt.BVBin(OMul, a[0], a[1]) })
+	u("Div", divlike(OUDiv))
+	u("Mod", divlike(OURem))
+	u("SDiv", divlike(OSDiv))
+	u("SMod", divlike(OSRem))
+	wide := func(op Op, ext int) func(in *Interp, a []*Term) *Term {
+		return func(in *Interp, a []*Term) *Term {
+			tt := in.tt
+			w := 256 + ext
+			x, y, m := tt.ZExt(a[0], w), tt.ZExt(a[1], w), tt.ZExt(a[2], w)
+			r := tt.Extract(255, 0, tt.BVBin(OURem, tt.BVBin(op, x, y), m))
+			return tt.Ite(tt.Eq(a[2], z(in)), z(in), r)
+		}
+	}
+	u("AddMod", wide(OAdd, 1))
+	u("MulMod", wide(OMul, 256))
+	sx("WAddMod", wide(OAdd, 1))
+	sx("WMulMod", wide(OMul, 256))
+	expF := func(in *Interp, a []*Term) *Term {
+		if a[0].IsConst() && a[1].IsConst() {
+			return in.tt.BVBig(256, new(big.Int).Exp(a[0].ConstBig(), a[1].ConstBig(), pow2(256)))
+		}
+		return in.tt.App("EXP256", BVSort(256), a[0], a[1])
+	}
+	u("Exp", expF)
+	sx("WExp", expF)
 
 	// uint256.udivrem: exact semantics as one wide bit-vector division (Knuth kernel not entered)
 	reg("github.com/holiman/uint256.udivrem", func(in *Interp, fr *frame, args []Value, _ *ssa.CallCommon) Value {
